@@ -46,11 +46,11 @@ func forwardTarget(c *Ctx, fn *ssa.Function, depth int) *ssa.Function {
 	}
 	// the call's result is what is returned
 	ret, ok := fn.Blocks[0].Instrs[len(fn.Blocks[0].Instrs)-1].(*ssa.Return)
-	if !ok || len(ret.Results) == 0 {
+	if !ok || len(ir.Results(ret)) == 0 {
 		return fn
 	}
 	feeds := false
-	for _, r := range ret.Results {
+	for _, r := range ir.Results(ret) {
 		if ex, ok := r.(*ssa.Extract); ok && ex.Tuple == ssa.Value(calls[0]) {
 			feeds = true
 		}
@@ -266,11 +266,11 @@ func emptyObjectResult(fn *ssa.Function) bool {
 	}
 	ir.EachInstr(fn, func(_ *ssa.BasicBlock, _ int, in ssa.Instruction) {
 		r, isRet := in.(*ssa.Return)
-		if !isRet || len(r.Results) == 0 {
+		if !isRet || len(ir.Results(r)) == 0 {
 			return
 		}
 		any = true
-		if !isEmpty(r.Results[0], 0) {
+		if !isEmpty(ir.Results(r)[0], 0) {
 			ok = false
 		}
 	})
